@@ -57,7 +57,7 @@ Proof.
               | _, None => st2
               end) in H.
   assert (G3 : sget st3 p_Display = sget st2 p_Display).
-  { unfold st3. destruct (e_kind a), par as [[pk pst]|]; try reflexivity; apply apply_inherit_get; assumption. }
+  { unfold st3. destruct (e_kind a), par as [[pk pst]|]; try reflexivity; apply apply_inherit_get; first [assumption | discriminate]. }
   match type of H with (let '(st, todo) := ?X in _) = _ => destruct X as [st4 todo4] eqn:E4 end.
   assert (G4 : sget st4 p_Display = match sget st3 p_Display with
                                     | Some v => Some v
